@@ -1454,7 +1454,7 @@ func TestCheck(t *testing.T) {
 	}
 	onlySpell := os.Getenv("VERIF_C15_PART") == "spell"
 	for _, job := range spellJobs(r, deadline, c) { // the spelling part (spell_test.go)
-		if units == nil && !onlySpell {
+		if units == nil && !onlySpell || os.Getenv("VERIF_C15_PART") == "nospell" { // (nospell: development aid for timing comparisons)
 			break
 		}
 		ch <- job
